@@ -546,8 +546,97 @@ impl Part for BackPressure {
     }
 }
 
+
+
+/// Premise of the write-call part, established on the real adaptor once per process: does one write call holding two frames
+/// leave as ONE binary message? (If a future adaptor re-frames what it is given, write-call granularity is immaterial and the
+/// part does not apply.)
+fn adaptor_maps_write_calls_to_messages() -> Option<bool> {
+    static PROBE: std::sync::OnceLock<Option<bool>> = std::sync::OnceLock::new();
+    *PROBE.get_or_init(|| {
+        let rt = tokio::runtime::Builder::new_current_thread().enable_all().build().ok()?;
+        guard(move || {
+            rt.block_on(async move {
+                use tokio::io::AsyncWriteExt;
+                let listener = tokio::net::TcpListener::bind("127.0.0.1:0").await.ok()?;
+                let addr = listener.local_addr().ok()?;
+                let server = tokio::spawn(async move {
+                    let (stream, _) = listener.accept().await.ok()?;
+                    let mut ws = tokio_tungstenite::accept_async(stream).await.ok()?;
+                    let mut sizes = vec![];
+                    while sizes.iter().sum::<usize>() < 8 {
+                        match tokio::time::timeout(std::time::Duration::from_secs(5), ws.next()).await {
+                            Ok(Some(Ok(Message::Binary(b)))) => sizes.push(b.len()),
+                            Ok(Some(Ok(_))) => {},
+                            _ => break,
+                        }
+                    }
+                    Some(sizes)
+                });
+                let url = format!("ws://{addr}/connect");
+                let (ws, _) = tokio_tungstenite::connect_async(url).await.ok()?;
+                let mut stream = insim::net::tokio_impl::WebsocketStream::from(ws);
+                // two TINY frames handed over in one call
+                stream.write_all(&[4, 3, 1, 3, 4, 3, 2, 3]).await.ok()?;
+                stream.flush().await.ok()?;
+                let sizes = server.await.ok()??;
+                Some(sizes == vec![8])
+            })
+        })
+        .ok()
+        .flatten()
+    })
+}
+
+/// Each write call of the connection becomes one binary message in the WebSocket adaptor (and one datagram over UDP), so a
+/// write call must never carry bytes of two frames - also not when a keep-alive reply was left unfinished by a cancelled read
+/// and the application writes next. Scripted transport, the schedules of C19 (drops, partial acceptance, Pending).
+pub struct WriteCalls;
+impl Part for WriteCalls {
+    type Case = crate::props::c19::DropCase;
+    fn name(&self) -> &'static str {
+        "one-frame-per-write-call"
+    }
+    fn check(&self, c: &crate::props::c19::DropCase, ev: &mut Local) -> Result<(), Fail> {
+        let mode = c.session.mode();
+        match adaptor_maps_write_calls_to_messages() {
+            Some(true) => {},
+            Some(false) => {
+                ev.class("not applicable: the adaptor re-frames what a write call hands it");
+                return Ok(());
+            },
+            None => {
+                ev.class("premise could not be established on loopback: skipped");
+                return Ok(());
+            },
+        }
+        for with_drops in [false, true] {
+            let o = crate::props::c19::drive(c, with_drops);
+            if let Some(p) = o.panic {
+                fail!("c20:panic", "scripted session panicked: {p}");
+            }
+            if let Some(why) = crate::transport::write_call_spanning_frames(&o.written, &o.offers, &mode) {
+                fail!("c20:write-not-one-binary-message", "{} read futures dropped: {why}; outgoing stream {}", o.dropped_in_read + o.dropped_in_write, hex(&o.written[..o.written.len().min(40)]));
+            }
+            if with_drops && o.dropped_in_write > 0 && o.writes_after_drop > 0 {
+                ev.class("application-write-after-a-read-dropped-inside-the-reply");
+            }
+            if with_drops && o.offers.len() >= 2 {
+                ev.nontrivial(&(crate::props::session::session_json(&c.session).to_string(), &c.drops, &c.user_writes));
+            }
+        }
+        Ok(())
+    }
+    fn to_json(&self, c: &crate::props::c19::DropCase) -> Value {
+        crate::props::c19::Generated.to_json(c)
+    }
+    fn from_json(&self, v: &Value) -> Option<crate::props::c19::DropCase> {
+        crate::props::c19::Generated.from_json(v)
+    }
+}
+
 pub fn parts() -> Vec<Box<dyn DynPart>> {
-    vec![Box::new(WsSessions), Box::new(BackPressure)]
+    vec![Box::new(WsSessions), Box::new(BackPressure), Box::new(WriteCalls)]
 }
 
 pub fn run(run: &mut Run) {
@@ -557,7 +646,7 @@ pub fn run(run: &mut Run) {
         performs a close handshake. The client wraps the socket with the crate's WebsocketStream. Oracle: packets delivered through Framed \
         equal the TCP model's list for the concatenated binary payloads and end in Disconnected; raw reads with caller buffers of 1..2048 \
         bytes return exactly the payload bytes; each Framed::write (and each keep-alive reply) reaches the server as exactly one binary \
-        message equal to the frame. A second part writes 2 000..12 000 packets through a client socket with a small send buffer while the server refuses to read until the writer has stalled, then compares every binary message with its frame. Non-trivial = a frame spans two or more messages, or a non-binary message sits inside a frame."
+        message equal to the frame. A second part writes 2 000..12 000 packets through a client socket with a small send buffer while the server refuses to read until the writer has stalled, then compares every binary message with its frame. A third part runs C19's cancellation schedules on the scripted transport and requires that no write call of the connection ever offers bytes of two frames (each call becomes one message). Non-trivial = a frame spans two or more messages, or a non-binary message sits inside a frame."
         .into();
     run.assumptions = vec![
         "tokio-tungstenite on loopback delivers messages in order; the 10 s session limit can only be hit if data was lost (the server sends everything and closes)".into(),
@@ -571,4 +660,8 @@ pub fn run(run: &mut Run) {
     let strat = (2_000usize..12_000, prop_oneof![Just(4096u32), Just(8192), Just(16384), Just(65536)], proptest::collection::vec(24usize..96, 1..5)).prop_map(|(packets, sndbuf, lens)| PressureCase { packets, sndbuf, lens });
     let n = run.budget(24, 400);
     run.prop(&BackPressure, strat, n);
+    // write-call granularity on the scripted transport, under the cancellation schedules of C19
+    run.max_shrink_iters = 2000;
+    let n = run.budget(30_000, 2_000_000);
+    run.prop(&WriteCalls, crate::props::c19::drop_case_strategy(), n);
 }
